@@ -36,8 +36,12 @@ ISAS = [
     isa.IsaCfg("6502/65C02", "Isa6502_Gen", [("6502", "6502"), ("65SC02", "65SC02"), ("65C02", "65C02"),
                                              ("W65C02S", "W65C02S")]),
     isa.IsaCfg("PIC16C8x", "IsaPic16_Gen", [("16C84", "16C84")], unit_bytes=2),
+    isa.IsaCfg("AVR", "IsaAvr_Gen", [("AT90S8515", "AT90S8515"), ("ATMEGA128", "ATMEGA128")], unit_bytes=2),
+    isa.IsaCfg("Z80", "IsaZ80_Gen", [("Z80", "Z80")]),
+    # beyond the property's list: the 6800 table exists because C15 needs it, so it is checked the same way
+    isa.IsaCfg("6800", "Isa6800_Gen", [("6800", "6800")]),
 ]
-NOT_COVERED = ["MSP430", "AVR", "Z80"]
+NOT_COVERED = ["MSP430"]
 
 
 GROUPS = {}
@@ -74,8 +78,9 @@ def judge(rep, cfg, cpu, case, src, line, rc, em, errs, sig=None, timeout=False,
     if exp == "reject":
         if em:
             rep.violation("%s %s: operand out of range in '%s'%s but units %s were emitted%s"
-                          % (cfg.name, cpu, stmt, at, em, "" if errs else " and no error reported"), case=case,
-                          files={"a.asm": src}, key=key_of(cfg, cpu, case, "accepted-out-of-range"))
+                          % (cfg.name, cpu, stmt, at, em, " next to the error" if errs else " and no error reported"),
+                          case=case, files={"a.asm": src},
+                          key=key_of(cfg, cpu, case, "truncated-with-error" if errs else "accepted-out-of-range"))
             return False
         if not errs and rc == 0:
             rep.violation("%s %s: operand out of range in '%s'%s but no error was reported"
@@ -84,6 +89,11 @@ def judge(rep, cfg, cpu, case, src, line, rc, em, errs, sig=None, timeout=False,
             return False
         return True
     # either: convention zone
+    if em and errs:
+        rep.violation("%s %s: '%s'%s is reported as an error but units %s were emitted all the same"
+                      % (cfg.name, cpu, stmt, at, em), case=case, files={"a.asm": src},
+                      key=key_of(cfg, cpu, case, "truncated-with-error"))
+        return False
     if em and em != case["units"]:
         rep.violation("%s %s: '%s'%s (negative spelling of an unsigned field) assembled to %s instead of the "
                       "two's complement %s" % (cfg.name, cpu, stmt, at, em, case["units"]), case=case,
@@ -114,10 +124,11 @@ def _fine(case, em, errs, rc):
 
 
 CHUNK = 40
+ACC_CHUNK = 1000     # accepted-expected statements per source (small enough for the smallest program memory)
 
 
 def replay_cpu(rep, bld, cfg, cpu, aslcpu, cases):
-    """Accepted-expected statements: one source.  Rejected-expected / convention-zone statements: with hooks they
+    """Accepted-expected statements: sources of ACC_CHUNK statements.  Rejected-expected / convention-zone statements: with hooks they
     are first screened in chunks of CHUNK statements per run (diag/emit events are per line); every statement
     that does not show exactly the expected picture there, and all of them without hooks, is assembled alone
     and judged on that run."""
@@ -128,7 +139,8 @@ def replay_cpu(rep, bld, cfg, cpu, aslcpu, cases):
         rep.evaluated()
         rep.distinct((cfg.name, cpu, isa.stmt_text(c), c["pc"]), True)
     if bld.hooks:
-        groups = ([acc] if acc else []) + [oth[i:i + CHUNK] for i in range(0, len(oth), CHUNK)]
+        accgroups = [acc[i:i + ACC_CHUNK] for i in range(0, len(acc), ACC_CHUNK)]
+        groups = accgroups + [oth[i:i + CHUNK] for i in range(0, len(oth), CHUNK)]
         jobs = []
         for g in groups:
             src, where = isa.batch_source(cfg, aslcpu, g)
@@ -143,17 +155,17 @@ def replay_cpu(rep, bld, cfg, cpu, aslcpu, cases):
             bad = [c for i, c in enumerate(g) if not _fine(c, em.get(where[i], []), errs.get(where[i], []), res.rc)]
             singles += bad
             rep.traces(1)
-            if g is acc and not bad:
+            if gi < len(accgroups) and not bad:
                 # the code file itself (the property's observation point): contiguous layout of the same units
                 got = isa.code_units(res, cfg)
                 want = []
                 addr = 0
-                for c in acc:
+                for c in g:
                     if c["pc"] >= 0:
                         addr = c["pc"]
                     for u in c["units"]:
                         want.append((addr, u))
-                        addr += 1
+                        addr += cfg.addr_step
                 if got is None or got != want:
                     k = 0
                     if got is not None:
